@@ -70,6 +70,8 @@ MUTANTS = [
      "    MasterOfPuppets(match_config=match_config).perform_matching()", "    try:\n        MasterOfPuppets(match_config=match_config).perform_matching()\n    except Exception as exc:  # pylint: disable=broad-except\n        logger.error(\"Error: %s\", exc)", "detect"),
     ("c17-negative-times-accepted-again", "C17", "jasm_regex/tree_generators/pattern_node_builder.py",
      "                    if times < 0:", "                    if False:", "detect"),
+    ("c17-sibling-times-type-unchecked-again", "C17", "jasm_regex/tree_generators/pattern_node_builder.py",
+     "                if times is not None and not isinstance(times, (int, dict)):", "                if False:", "detect"),
     # ------------------------------------------------------------------ C15
     ("c15-D-for-d", "C15", "stringify_asm/implementations/gnu_objdump/gnu_objdump_disassembler.py",
      '        default_flags = ["-d"]', '        default_flags = ["-D"]', "detect"),
